@@ -573,7 +573,7 @@ void World::run(const Plan &p, const std::string &d) {
     for (size_t i = 0; i < plan.ops.size() && !failed() && !stop; i++) {
         cur = (int) i;
         const Op &op = plan.ops[i];
-        arg_class.clear();
+        arg_class.clear(); must_succeed.clear();
         evh.str(op_to_line(op));
         progress((int) i, op.kind);
         uint64_t fileless = is_open ? 0 : 1;
@@ -597,6 +597,8 @@ void World::run(const Plan &p, const std::string &d) {
         if (threaded) { cnt.inc("ops_from_second_thread"); std::thread t(body); t.join(); }
         else body();
         g_t_exec += wall_now() - t0x;
+        // an in-contract call on a writable file must do what it was asked to (the round-trip properties presuppose that values can be assigned)
+        if (rc == 1 && !must_succeed.empty() && is_open && mode == 0 && !blind) { cnt.inc("in_contract_call_threw"); fail(must_succeed, "an in-contract call threw instead of doing what it was asked to (" + arg_class + ")"); }
         if (ro_guard && is_open && mode == 1) { arr = s_arr; dims = s_dims; prop = s_prop; frame = s_frame; }   // nothing can have changed on a ReadOnly file (checked below)
         evh.u64((uint64_t) rc); evh.u64(fileless);
         cnt.inc(std::string("op.") + op_name(op.kind) + (rc == 0 ? ".ok" : rc == 1 ? ".threw" : ".skipped"));
